@@ -146,7 +146,7 @@ func Check(c *Case, h *Hist) []Finding {
 					if h.WaitErr.Error() == goexitMsg {
 						ok = true
 					}
-				} else if errors.Is(h.WaitErr, h.Errs[j]) {
+				} else if veryErr(h.WaitErr, h.Errs[j]) {
 					ok = true
 				}
 			}
@@ -454,6 +454,31 @@ func lateAfterFailure(c *Case, h *Hist) bool {
 				}
 			}
 		}
+	}
+	return false
+}
+
+// veryErr reports whether target itself (the very instance) is err or is
+// reachable from err through Unwrap / multierr entries. Unlike errors.Is it
+// never consults an Is method: some injected errors match every target.
+func veryErr(err error, target *jobErr) bool {
+	for err != nil {
+		if je, ok := err.(*jobErr); ok && je == target {
+			return true
+		}
+		if es := multierr.Errors(err); len(es) > 1 {
+			for _, e := range es {
+				if veryErr(e, target) {
+					return true
+				}
+			}
+			return false
+		}
+		u, ok := err.(interface{ Unwrap() error })
+		if !ok {
+			return false
+		}
+		err = u.Unwrap()
 	}
 	return false
 }
